@@ -385,7 +385,7 @@ def once_stage(w, tier, seed, ev):
         # schedules of the protocol WITHOUT the lock that the locked protocol forbids
         write_cfg(w, "OB.cfg", "Spec", ["EmitSched"], constants=dict(consts, Bugs='{"F9"}'), post=None, alias=None)
         # (only a sample of them is needed: the exploration of the unlocked protocol is cut off after two minutes)
-        resb = w.tlc("Once.tla", "OB.cfg", workers=vlib.NCPU, timeout=120)
+        resb = w.tlc("Once.tla", "OB.cfg", workers=vlib.NCPU, timeout=120, allow_timeout=True)
         adv = [dict(x, adv=True) for x in parse_scheds(resb["out"]) if json.dumps(x["steps"]) not in legalkeys]
         adv = rnd.sample(adv, min(len(adv), 12 if q else 60))
         vlib.write_json(w.path("sched.json"), legal + adv)
